@@ -743,10 +743,10 @@ fn child_main(args: &Args) -> ! {
     systematic(&mut ctx);
     ctx.bump_sample_cap(4);
     oversized(&mut ctx);
-    let n = ctx.tier.pick(40_000, 1_000_000);
+    let n = ctx.tier.pick(160_000, 1_000_000);
     random_bytes(&mut ctx, n);
     ctx.bump_sample_cap(4);
-    let n = ctx.tier.pick(300, 5_000);
+    let n = ctx.tier.pick(1_000, 5_000);
     listen_part(&mut ctx, n);
     if ctx.tier == Tier::Thorough && !ctx.failed() {
         let mut seeds: Vec<Vec<u8>> = vec![];
